@@ -797,7 +797,7 @@ fn assumptions_of(prop: &str) -> Vec<&'static str> {
     ];
     match prop {
         "C06" => v.push("the reference is lexpr's own slice reader on the same bytes; a defect common to all three readers is invisible"),
-        "C07" => v.push("the reference text is lexpr::to_string(_custom) of the same value"),
+        "C07" => v.push("the reference text is what lexpr::to_vec(_custom) gives for the same value (to_string is compared with it under C17)"),
         "C12" => v.push("what a printed value denotes is defined by parsing it alone with the same options; values that do not read back alone are dropped (counted)"),
         "C19" => v.push("the precondition 'parses as a single datum' is established by the parser under test"),
         _ => {}
